@@ -1062,6 +1062,7 @@ class Server:
             await self.user_manager.notify_logout(connection.user)
         del connection.user
         del connection.logged
+        del connection.rename_from
         state, user, info = await self.user_manager.get_user(rest)
         if state == AbstractUserManager.GetUserResponse.OK:
             code = "230"
